@@ -14,4 +14,6 @@ TRUSTED = ['rustc MIR', 'rustc needs_drop']
 def run(ctx):
     rep = Report('C19')
     gen_thrift.ownership_gap(rep)
+    if ctx['tier'] == 'thorough':
+        gen_thrift.ownership_gap(rep, split=True)   # same rules on the split-file output
     return rep
